@@ -53,8 +53,10 @@ def _spec(decoder, cfg):
             if k in m:
                 spec[k[1:]] = m[k]
         for k, v in m.items():
-            if k.startswith('#clock_'):
+            if k == '#clock_secs':
                 spec['clock'] = v
+            elif k.startswith('#clock_'):
+                pass
             elif k not in ('src', '#opens', '#aead_vec', '#xof', '#ecb') and not isinstance(v, (dict, list)):
                 spec.setdefault('vars', {})[k] = v
         return spec
